@@ -40,10 +40,14 @@ TWIN_RENAMES = (
 )
 
 
+import re as _re
+_ORD_RE = _re.compile(r"#\d+")
+
+
 def norm_rows(rows):
     out = []
     for g, v in rows:
-        txt = " & ".join(g) + " => " + v
+        txt = _ORD_RE.sub("", " & ".join(g) + " => " + v)
         for a, b in TWIN_RENAMES:
             txt = txt.replace(a, b)
         out.append(txt)
@@ -85,6 +89,10 @@ def run(facts, R):
                  ("server::decode_typed_slice_param", "server::decode_typed_slice_param_view"),
                  ("message::create_response_unstamped", "message::create_response_unstamped_view"),
                  ("message::create_typed_slice_response_unstamped", "message::create_typed_slice_response_unstamped_view")):
+        if a not in facts.bodies and b not in facts.bodies:
+            # both helpers were folded into their callers: the handle/handle_view comparison above now covers their code
+            R.note("helper pair %s / %s no longer exists; covered by the handle == handle_view comparison" % (a, b))
+            continue
         twin_check(facts, R, a, b, "helper pair")
     # the closures handed to decode_typed_slice_ref_param by the two paths
     for im in impls:
@@ -204,6 +212,8 @@ def run(facts, R):
     for g, v in rows:
         if v.startswith("Option::None") or (v.startswith("Option::map(") and "{closure#" in v):
             continue
+        if v.startswith("Option::map") and "or_else" in v and "fn:" in v:
+            continue   # combinator chain: the closures below decide what is handed out
         R.check("dispatched" in v and ".raw" not in v, "rebuild-covers-all", gt.path, "get returns only dispatched", "Router::get can return %s" % v[:160], gt.span, v[:100])
     for c in facts.children(gt.path):
         cv = render(Sym(c).local(0))
@@ -213,7 +223,29 @@ def run(facts, R):
     # ---------------- lookup-order ------------------------------------------------------------------------------
     mg = [(i, t) for i, t in gt.calls() if t["callee"]["name"] == "get" and "HashMap" in t["callee"]["path"]]
     finds = [(i, t) for i, t in gt.calls() if t["callee"]["name"] == "find"]
-    R.check(len(mg) == 1 and len(finds) == 2, "lookup-order", gt.path, "one exact lookup, two prefix scans", "map gets=%d finds=%d" % (len(mg), len(finds)), gt.span)
+    # the same precedence spelled as a lazy combinator chain: inner.get(path)[.map(..)].or_else(|| registries..).or_else(|| structs..)
+    raw_rows = value_rows(gt, gs, facts, 0, fmt=lambda z: z)
+    if len(mg) == 1 and not finds and len(raw_rows) == 1:
+        e = raw_rows[0][1]
+        clos = []
+        while e[0] == "call" and e[1].rsplit("::", 1)[-1] in ("map", "cloned", "copied", "or_else") and e[2]:
+            if e[1].rsplit("::", 1)[-1] == "or_else" and len(e[2]) == 2:
+                clos.append(e[2][1])
+            e = e[2][0]
+        clos.reverse()
+        base_ok = is_call(e, "get") and "inner" in render(e[2][0])
+        srcs = []
+        for c in clos:
+            cp = c[1].split(":", 1)[1] if c[0] == "agg" and c[1].startswith("closure:") else None
+            cb = facts.bodies.get(cp) if cp else None
+            txt = render(Sym(cb).local(0)) if cb is not None else ""
+            srcs.append("registries" if ("registries" in txt and "find(" in txt) else "structs" if ("structs" in txt and "find(" in txt) else "?")
+        R.check(base_ok and srcs == ["registries", "structs"], "lookup-order", gt.path, "exact lookup first, then lazy prefix scans (or_else chain)",
+                "Router::get is a combinator chain over %s with fallbacks %s" % (render(e)[:60], srcs), gt.span, "inner.get(path).or_else(registries).or_else(structs)")
+        finds = None
+    if finds is not None:
+        R.check(len(mg) == 1 and len(finds) == 2, "lookup-order", gt.path, "one exact lookup, two prefix scans", "map gets=%d finds=%d" % (len(mg), len(finds)), gt.span)
+    finds = finds or []
     for i, t in finds:
         fs = facts_at(gt, gs, facts, i)
         miss = any(f["val"] == "None" and is_call(f["expr"], "get") and "inner" in render(f["expr"]) for f in fs)
@@ -342,7 +374,7 @@ def prefix_table(facts, R, fn, pfx):
             res = ("const", v[2] == "Some")
         elif is_call(v, "from_residual"):
             res = ("const", False)
-        elif is_call(v, "is_some_and"):
+        elif is_call(v, "is_some_and") or is_call(v, "filter"):
             inner = v[2][0]
             clo = v[2][1]
             okc = False
